@@ -149,6 +149,7 @@ package fsutil
 //@   ensures reg: err == nil && specIsLinkCandidate(kind, fi) && len(asptr(fi.Sys(), types.Stat).Linkname) == 0 ==> result == nil && (forall k string :: haskey(v.seenFiles, k) == (old(haskey(v.seenFiles, k)) || k == p))
 //@   ensures other: err == nil && !specIsLinkCandidate(kind, fi) ==> forall k string :: haskey(v.seenFiles, k) == old(haskey(v.seenFiles, k))
 //@   ensures nostat: err == nil && kind != ChangeKindDelete && !isptr(fi.Sys(), types.Stat) ==> result != nil
+//@   posteffect LinkOK(p) when result == nil
 
 // ---------------------------------------------------------------------------
 // validator.go: Validator (soundness direction: accept ==> ...)
@@ -175,6 +176,7 @@ package fsutil
 //@   ensures first: err == nil && retErr == nil && old(v.parentDirs) == nil ==> specVDir(p) == "" && "" < filepath.Base(p) && len(v.parentDirs) == 1 + ite(specVPushed(kind, fi), 1, 0)
 //@   ensures last: err == nil && retErr == nil ==> v.parentDirs[len(v.parentDirs) - 1 - ite(specVPushed(kind, fi), 1, 0)].last == filepath.Base(p) && v.parentDirs[len(v.parentDirs) - 1 - ite(specVPushed(kind, fi), 1, 0)].dir == specVDir(p)
 //@   ensures push: err == nil && retErr == nil && specVPushed(kind, fi) ==> v.parentDirs[len(v.parentDirs) - 1].dir == filepath.Join(specVDir(p), filepath.Base(p)) && v.parentDirs[len(v.parentDirs) - 1].last == ""
+//@   posteffect OrderOK(p) when retErr == nil
 //@   ensures keep: err == nil && retErr == nil && old(v.parentDirs) != nil ==> forall k int :: 0 <= k && k < len(v.parentDirs) - 1 - ite(specVPushed(kind, fi), 1, 0) ==> v.parentDirs[k].dir == old(v.parentDirs[k].dir) && v.parentDirs[k].last == old(v.parentDirs[k].last)
 
 // ---------------------------------------------------------------------------
@@ -269,3 +271,80 @@ package fsutil
 //@   modifies heap
 //@   effects SendMsg MuLock MuUnlock RecvMsg ChanSend
 //@   ensures fin: result == nil ==> cnt(SendMsg) >= old(cnt(SendMsg)) + 1 && arg(SendMsg, 0) == types.PACKET_FIN
+
+// ---------------------------------------------------------------------------
+// buffer.go (metadata listing buffer)
+// ---------------------------------------------------------------------------
+
+// alloc hands out the next n bytes of the concatenation view: either the region
+// directly behind the bytes already handed out of the last chunk (same backing
+// array), or a fresh chunk appended at the end. Earlier chunks keep their
+// position, backing array and length; no byte of any chunk is written.
+//@ func buffer.alloc
+//@   property C19
+//@   safety +overflow
+//@   requires b != nil && n >= 0
+//@   modifies b.chunks, b.chunks[*]
+//@   ensures len: len(result) == n
+//@   ensures prefix: forall k int :: 0 <= k && k < old(len(b.chunks)) - 1 ==> b.chunks[k] == old(b.chunks[k])
+//@   ensures grow: len(b.chunks) == old(len(b.chunks)) || len(b.chunks) == old(len(b.chunks)) + 1
+//@   ensures reuse: len(b.chunks) == old(len(b.chunks)) ==> old(len(b.chunks)) > 0 && ref(b.chunks[len(b.chunks)-1]) == old(ref(b.chunks[len(b.chunks)-1])) && off(b.chunks[len(b.chunks)-1]) == old(off(b.chunks[len(b.chunks)-1])) && len(b.chunks[len(b.chunks)-1]) == old(len(b.chunks[len(b.chunks)-1])) + n && ref(result) == old(ref(b.chunks[len(b.chunks)-1])) && off(result) == old(off(b.chunks[len(b.chunks)-1]) + len(b.chunks[len(b.chunks)-1]))
+//@   ensures fresh: len(b.chunks) == old(len(b.chunks)) + 1 ==> result == b.chunks[len(b.chunks)-1] && fresh(result) && (old(len(b.chunks)) > 0 ==> b.chunks[len(b.chunks)-2] == old(b.chunks[len(b.chunks)-1]))
+
+// ---------------------------------------------------------------------------
+// receive.go
+// ---------------------------------------------------------------------------
+
+//@ func wrappedWriteCloser.Wait
+//@   property C07
+//@   requires w != nil
+
+// forwarding an entry to the diff: one channel send carrying exactly that entry
+//@ func dynamicWalker.update
+//@   property C07 C03 C19
+//@   requires w != nil
+//@   effects ChanSend
+//@   note a nil result without a send is possible only through errors.Wrap(w.err) with w.err == nil after closeCh fired; fill() stores ctx.Err() before closing closeCh (channel happens-before, not modelled)
+//@   ensures fwd: result == nil && p != nil && old(w.err) != nil ==> cnt(ChanSend) == old(cnt(ChanSend)) + 1 && ptr(arg(ChanSend, 1), currentPath) == p
+//@   ensures atmost: cnt(ChanSend) <= old(cnt(ChanSend)) + 1
+//@   ensures end: p == nil ==> cnt(ChanSend) == old(cnt(ChanSend))
+
+// a path is requested at most once, by the id it was announced with, and the
+// pipe for the answer is registered before the request leaves
+//@ func receiver.asyncDataFunc
+//@   property C07 C02
+//@   requires r != nil && r.files != nil && r.pipes != nil
+//@   modifies r.files[*], r.pipes[*]
+//@   effects MuLock MuUnlock SendMsg
+//@   ensures unknown: !old(haskey(r.files, p)) ==> result != nil && cnt(SendMsg) == old(cnt(SendMsg))
+//@   ensures known: old(haskey(r.files, p)) ==> cnt(SendMsg) == old(cnt(SendMsg)) + 1 && arg(SendMsg, 0) == types.PACKET_REQ && arg(SendMsg, 1) == old(r.files[p])
+//@   ensures consumed: !haskey(r.files, p)
+//@   ensures frame: forall k string :: k != p ==> haskey(r.files, k) == old(haskey(r.files, k)) && r.files[k] == old(r.files[k])
+//@   at call Stream.SendMsg: pipe_before_req: haskey(r.pipes, id)
+
+// the receive loop. Ghost: StatRecv counts received STAT packets that carry a stat.
+//  - the id counter equals the number of such packets (ids are positions in the
+//    STAT sequence, counting every STAT, also a skipped .fsutil-metadata entry)
+//  - an id is registered under the zero-based position of its STAT
+//  - an entry is forwarded to the diff only after both validators accepted it in
+//    this iteration
+//  - DATA goes to the pipe registered for its id: Close for an empty payload,
+//    Write otherwise, before the next packet is read
+//  - success only when the stream ended (io.EOF) after FIN
+//@ func receiver.run$2
+//@   property C07 C19 C03
+//@   requires r != nil && r.files != nil && r.pipes != nil && w != nil && metadataBuffer != nil && metadataParents != nil
+//@   requires r.orderValidator.parentDirs == nil || (len(r.orderValidator.parentDirs) >= 1 && r.orderValidator.parentDirs[0].dir == "")
+//@   modifies heap
+//@   effects RecvMsg StatRecv RecvDone MuLock MuUnlock Progress ChanSend PipeWrite PipeClose OrderOK LinkOK
+//@   loop 0 invariant id_counter: i == uint32(cnt(StatRecv) - old(cnt(StatRecv)))
+//@   loop 0 invariant maps: r.files == old(r.files) && r.pipes == old(r.pipes)
+//@   loop 0 invariant vwf: r.orderValidator.parentDirs == nil || (len(r.orderValidator.parentDirs) >= 1 && r.orderValidator.parentDirs[0].dir == "")
+//@   ensures eof: result == nil ==> arg(RecvDone, 0) == io.EOF
+//@   at call Validator.HandleChange: id_is_stat_position: !metaOnly && specCanRequest(p.Stat.Mode) ==> haskey(r.files, path) && r.files[path] == uint32(cnt(StatRecv) - old(cnt(StatRecv)) - 1)
+//@   at call dynamicWalker.update: validated_before_forward: arg1 != nil ==> when(OrderOK) > when(RecvMsg) && when(LinkOK) > when(RecvMsg)
+//@   at call io.WriteCloser.Write: data_to_registered_pipe: haskey(r.pipes, p.ID) && len(p.Data) != 0
+//@   at call io.WriteCloser.Close: close_on_empty_payload: haskey(r.pipes, p.ID) && len(p.Data) == 0
+//@   at call buffer.alloc: listing_skips_own_name: path != ".fsutil-metadata"
+//@   at call Stat.MarshalToSizedBufferVT: record_size: len(arg1) == n
+//@   at call littleEndian.PutUint32: length_prefix: len(arg1) == 4 && arg2 == uint32(n)
